@@ -78,7 +78,7 @@ fn check_type<T: Jetty>(tname: &str, ctx: &Ctx, shard: usize, nshards: usize, ti
     let mut acc = Acc::new();
     let u = unit_roundoff::<T>();
     ndv_core::track::set_u(u);
-    let draws = ctx.n(24, 1200);
+    let draws = ctx.n(24, 12000);
     let floor = if T::IS_F32 { 3e-42 } else { 1e-320 }; // denormal spacing times the amplification by the other parts (<~ 2e3)
     let mut idx = 0u64;
     let order = T::shape((1, 1)).order();
@@ -106,6 +106,7 @@ fn check_type<T: Jetty>(tname: &str, ctx: &Ctx, shard: usize, nshards: usize, ti
                     continue;
                 }
             };
+            ndv_core::evlog::log_unary("C10", tname, *f, &b, &slots, &got, T::IS_F32);
             let jet = Jet::from_slots(&b, &slots);
             let (want, tight) = match sph_order(*f) {
                 Some(n) => {
@@ -183,7 +184,7 @@ fn check_bessel<T: Jetty<F = f64> + BesselDual>(tname: &str, ctx: &Ctx, shard: u
     let mut idx = 0u64;
     for (fi, f) in [Func::BesselJ0, Func::BesselJ1, Func::BesselJ2].iter().enumerate() {
         for (pi, (x0, pname)) in pts.iter().enumerate() {
-            for rep in 0..ctx.n(24, 1200) {
+            for rep in 0..ctx.n(24, 12000) {
                 idx += 1;
                 if idx % nshards as u64 != shard as u64 {
                     continue;
@@ -203,6 +204,7 @@ fn check_bessel<T: Jetty<F = f64> + BesselDual>(tname: &str, ctx: &Ctx, shard: u
                         continue;
                     }
                 };
+                ndv_core::evlog::log_unary("C10", tname, *f, &b, &slots, &got, false);
                 let (want, tight, _) = model_point(*f, &Jet::from_slots(&b, &slots), &b, &bessel_tight(8.0));
                 judge(&mut acc, K, u, &pn, f.short(), tname, &b, &got, &want, &tight, None, 1e-300, &case);
             }
